@@ -110,11 +110,37 @@ Fixpoint lookupN {A} (l : list (N * A)) (k : N) : option A :=
 Definition dedup (l : list N) : list N :=
   fold_right (fun x acc => if existsb (N.eqb x) acc then acc else x :: acc) [] l.
 
+(* a Constant holding anything but a tuple of constants (e.g. a Name) is rejected by the
+   translator ("Unable to infer type of constant"): such outputs are not accepted programs *)
+Fixpoint closed_const (e : exp) : bool :=
+  match e with
+  | EConst _ => true
+  | ETuple l => forallb closed_const l
+  | _ => false
+  end.
+Fixpoint nodes_ok (e : exp) {struct e} : bool :=
+  match e with
+  | EName _ | EConst _ => true
+  | EConstNode e' => closed_const e'
+  | EBoolOp _ l | ETuple l | EList l | ECall _ l => forallb nodes_ok l
+  | EBinOp _ a b | ECompare _ a b | ESubscript a b => nodes_ok a && nodes_ok b
+  | EUnOp _ a => nodes_ok a
+  | EIfExp c t f => nodes_ok c && nodes_ok t && nodes_ok f
+  end.
+Definition stmt_nodes_ok (s : stmt) : bool :=
+  match s with
+  | SAssign _ e | SAugAssign _ _ e | SReturn e | SExpr (Some e) => nodes_ok e
+  | SExpr None => true
+  | SIf _ _ _ | SFor _ _ _ _ => false
+  end.
+
 Definition chk_eval (cs : list (N * acase)) (ss : list (N * list sample)) : list N :=
   flat_map (fun p =>
               match c_obs (snd p), lookupN ss (fst p) with
               | IOk b', Some l =>
-                  map (fun k => fst p * 10 + k) (dedup (flat_map (sample_codes (c_fun (snd p)) b') l))
+                  if forallb stmt_nodes_ok b' then
+                    map (fun k => fst p * 10 + k) (dedup (flat_map (sample_codes (c_fun (snd p)) b') l))
+                  else []
               | _, _ => []
               end) cs.
 
@@ -158,10 +184,12 @@ Definition guard_case (p : N * acase) (ss : list (N * list sample)) : list N * l
           match lookupN ss (fst p) with
           | Some l =>
               map (fun s => let rho := env_for f (fst s) in
-                            match run chk_ext b' rho with
-                            | Some v => if oval_eqb (run chk_ext (f_body f) rho) (Some v) then 1 else 2
-                            | None => 0
-                            end) l
+                            if conforms_b f rho then
+                              match run chk_ext b' rho with
+                              | Some v => if oval_eqb (run chk_ext (f_body f) rho) (Some v) then 1 else 2
+                              | None => 0
+                              end
+                            else 0) l
           | None => []
           end
         else [] in
